@@ -748,9 +748,18 @@ void caseWrapper(vrt::Case& c)
           vrt::expect(now[i] == vals[t], "wrapper.passthrough", cc, [&] { return cfgs + ": after " + txt + " untransformed parameter p" + str(i) + "=" + str(now[i]); });
         expectedF[i] = now[i];
       }
+      // parameters the update did not name: untouched, or (equally faithful) re-set to the back-transformed value of their coordinate;
+      // parameters the wrapper does not manage: untouched
       bool othersKept = true;
-      for (size_t i = 0; i < n; ++i) othersKept = othersKept && vrt::sameDouble(now[i], expectedF[i]);
-      vrt::expect(othersKept, "wrapper.other-parameters-kept", wname, [&] { return cfgs + ": after " + txt + " function parameters are " + pointStr(now) + " expected " + pointStr(expectedF); });
+      for (size_t i = 0; i < n; ++i)
+      {
+        bool ok = vrt::sameDouble(now[i], expectedF[i]);
+        for (size_t k = 0; !ok && k < taken.size(); ++k)
+          if (taken[k] == i) ok = vrt::sameDouble(now[i], tparam(k).getOriginalValue());
+        othersKept = othersKept && ok;
+        expectedF[i] = now[i];
+      }
+      vrt::expect(othersKept, "wrapper.other-parameters-kept", wname, [&] { return cfgs + ": after " + txt + " function parameters are " + pointStr(now) + " (neither the previous values nor the back-transformed coordinates)"; });
       // value
       double want = poly.eval(now);
       vrt::expect(vrt::sameDouble(ret, want) && vrt::sameDouble(W->getValue(), want), "wrapper.value", wname, [&] {
@@ -974,9 +983,9 @@ void caseWrapSweep(vrt::Case& c)
 int main(int argc, char** argv)
 {
   vector<vrt::Group> groups = {
-    { "transform", 5400, 270000, caseTransform, 600, false },
-    { "wrapper", 4000, 200000, caseWrapper, 600, false },
-    { "wrap-sweep", 1600, 40000, caseWrapSweep, 600, false },
+    { "transform", 21600, 1080000, caseTransform, 600, false },
+    { "wrapper", 16000, 800000, caseWrapper, 600, false },
+    { "wrap-sweep", 4800, 160000, caseWrapSweep, 600, false },
   };
   vrt::Meta meta;
   meta.rule = "transform: one transform object per case (index mod 9: 3x interval-hyperbolic, 3x interval-tangent, half-line positive, half-line negative, mixed), bounds over "
